@@ -401,6 +401,8 @@ class Gen:
             op = {'op': 'call', 'cfg': cid, 'abbr': abbr, 'pin': rng.randrange(1000)}
             if maybe(rng, 0.2):
                 op['entry'] = 'expand_stylesheet' if stype == 'stylesheet' else 'expand_markup'
+            elif spec.get('holder') == 'Config' and spec.get('global') and maybe(rng, 0.5):
+                op['pass_global'] = True
             kind = self.fault_for(spec, sw)
             if kind == 'F1':
                 op['abbr'] = ga.mutate(rng, abbr)
